@@ -218,6 +218,7 @@ fn graphs() -> Vec<(&'static str, GraphSpec)> {
                     p(e(3), "w", s("x")),
                 ],
                 aliases: vec![(0, "root".into())],
+                valued_nodes: vec![],
             },
         ),
         (
@@ -236,6 +237,7 @@ fn graphs() -> Vec<(&'static str, GraphSpec)> {
                     p(e(3), "age", DbValue::VecI64(vec![40])),
                 ],
                 aliases: vec![(1, "root".into())],
+                valued_nodes: vec![],
             },
         ),
         (
@@ -256,6 +258,7 @@ fn graphs() -> Vec<(&'static str, GraphSpec)> {
                     p(e(4), "name", s("bible")),
                 ],
                 aliases: vec![(0, "root".into())],
+                valued_nodes: vec![],
             },
         ),
         (
@@ -274,6 +277,7 @@ fn graphs() -> Vec<(&'static str, GraphSpec)> {
                     p(e(6), "w", DbValue::U64(1)),
                 ],
                 aliases: vec![(2, "root".into())],
+                valued_nodes: vec![],
             },
         ),
     ]
@@ -544,7 +548,7 @@ fn comparisons(o: &DbValue) -> Vec<Comparison> {
 }
 
 fn grid_spec(stored: &DbValue) -> GraphSpec {
-    GraphSpec { nodes: 2, ops: vec![Op::Edge(0, 1)], props: vec![(ElemRef::Node(0), s("k"), stored.clone()), (ElemRef::Edge(0), s("k"), stored.clone())], aliases: vec![] }
+    GraphSpec { nodes: 2, ops: vec![Op::Edge(0, 1)], props: vec![(ElemRef::Node(0), s("k"), stored.clone()), (ElemRef::Edge(0), s("k"), stored.clone())], aliases: vec![], valued_nodes: vec![] }
 }
 
 fn grid_query(g: &RefGraph, cmp: &Comparison) -> SearchQuery {
